@@ -158,8 +158,9 @@ def depth2(sym):
 
 
 def form_maps(sym, tier):
-    V = ['', sym, ' ', '&', '=', '+', '%', '%41', 'é', '😀', 'a,b', '\x00\n', '/?#']
-    K = [sym, ' ', '&=', '%2B', 'é', '😀'] if tier == 'quick' else [k for k in V if k]
+    # '~.-_*': characters urlencode() leaves as they are (the RFC 3986 unreserved marks and '*')
+    V = ['', sym, ' ', '&', '=', '+', '%', '%41', 'é', '😀', 'a,b', '\x00\n', '/?#', '~.-_*']
+    K = [sym, ' ', '&=', '%2B', 'é', '😀', '~.-_*'] if tier == 'quick' else [k for k in V if k]
     out = [{}]
     out += [{k: v} for k in K for v in V]
     out += [{k: [v1, v2]} for k in K[:3] for v1 in V for v2 in V]
